@@ -8,7 +8,30 @@ def allcrash_jobs(rnd, prof, tier):
     return system_common.make_jobs(rnd, n, "crash", allcrash=True)
 
 
+def budget_default(out):
+    """get_default_max_worker_restart: explicit value, else 4 x workers; model vs implementation,
+    and the property's reading 'by default four times the number of workers'"""
+    import random
+    from common import Corr, Model, run_jobs
+    rnd = random.Random(out.seed + 1010)
+    cases = [[o, np] for o in (None, 0, 1, 3, 7) for np in (None, 0, 1, 2, 5)]
+    res = run_jobs("drive_pure.py", [{"kind": "default_budget", "case": c} for c in cases], nproc=2)
+    model = Model()
+    corr = Corr(out, model, rnd)
+    corr.compare("get_default_max_worker_restart", "default_budget", [[[] if o is None else [o], [] if np is None else [np]] for o, np in cases], res)
+    for (o, np), r in zip(cases, res):
+        if o is None and not np and r == []:
+            out.report({"kind": "restart-budget-unset", "numprocesses": "unset", "option": "unset"},
+                       {"maxworkerrestart": o, "numprocesses": np, "budget": None}, {"maxworkerrestart": o, "numprocesses": np})
+        elif o is not None and r != [o]:
+            out.report({"kind": "explicit-budget-ignored"}, {"case": [o, np], "got": r}, {"case": [o, np]})
+        elif o is None and np and r != [4 * np]:
+            out.report({"kind": "default-budget-not-4n"}, {"case": [o, np], "got": r}, {"case": [o, np]})
+    model.close()
+
+
 def run(out: common.Outcome):
+    budget_default(out)
     system_common.standard_run(
         out, "C10", [("crash", 1.0)], ["restart_budget", "stuck", "internal_error"],
         nontrivial=lambda r: len(r["summary"]["dead"]) >= 1,
